@@ -31,6 +31,26 @@ def run(ctx):
                           writes=w, how_to_replay='./check C05 --replay <file>')
         if r.hung or r.rc != 0:
             ctx.notes.append(f'run ended abnormally (rc={r.rc}, hung={r.hung}): options {j["opts"]}')
+    # TIE-H: every hierarchical history is replayed in the extracted scheduler model
+    import hiermon
+    ok_, log_ = common.build_driver()
+    if not ok_:
+        raise common.BuildError(log_[-3000:])
+    model = common.Model()
+    built = [(j, hiermon.build(r.events)) for j, r in zip(jobs, runs) if not r.hung and r.rc == 0]
+    built = [(j, b) for j, b in built if b is not None]
+    good = [(j, b) for j, b in built if 'error' not in b]
+    for j, b in built:
+        if 'error' in b:
+            ctx.disagree('scheduler history (reconstruction)', input=j['text'][:600], options=j['opts'], detail=b['error'])
+    res = model.batch([(80, b['arg']) for _, b in good])
+    nact = 0
+    for (j, b), r_ in zip(good, res):
+        nact += b['nactions']
+        for msg in hiermon.compare(r_, b):
+            ctx.disagree('scheduler history vs Model/SchedHier.v', input=j['text'][:800], options=j['opts'], command=j['cmd'], env=j['env'], detail=msg)
+    ctx.count('histories replayed in the model', len(good))
+    ctx.count('model actions replayed', nact)
     ctx.extra['runs'] = len(runs)
     ctx.assumptions += ['Pool delivers one result per generated task; the launcher\'s wrappers observe the real calls',
                         'token digests identify contents (sha1 over the token sequence)']
